@@ -232,15 +232,16 @@ fn random_soup(src: &mut Src, obs: &mut Obs) -> Res {
 }
 
 /// targeted near misses: one forbidden thing placed into an otherwise valid frame
-fn targeted(obs: &mut Obs, _thorough: bool) -> Res {
+/// the strings of the targeted box with the family each belongs to (shared with C08, which runs them
+/// through every entry point for panics)
+pub fn targeted_inputs() -> Vec<(String, &'static str)> {
+    let mut out: Vec<(String, &'static str)> = vec![];
     let ints = ["-0", "00", "01", "-01", "9007199254740992", "-9007199254740992", "9223372036854775807", "-9223372036854775808", "9223372036854775808", "18446744073709551616",
         "99999999999999999999999999", "1.0", "1e2", "+1", "0x10", " 1 2", "1_000"];
     let int_frames = ["$[{}]", "$[{}:]", "$[:{}]", "$[::{}]", "$[1:{}:2]", "$..[{}]", "$[0,{}]", "$[?@[{}]==1]", "$[?$[{}]==1]", "$[?@.a[{}].b==1]", "$[?count(@[{}])==1]", "$[?@[?@[{}]]]"];
-    let mut n = 0u64;
     for f in int_frames {
         for i in ints {
-            must_reject(&f.replace("{}", i), "targeted:integer-form", true, obs)?;
-            n += 1;
+            out.push((f.replace("{}", i), "targeted:integer-form"));
         }
     }
     let blanks = [" ", "\t", "\n", "\r"];
@@ -251,8 +252,7 @@ fn targeted(obs: &mut Obs, _thorough: bool) -> Res {
     ];
     for f in blank_frames {
         for b in blanks {
-            must_reject(&f.replace("{}", b), "targeted:blank-where-forbidden", true, obs)?;
-            n += 1;
+            out.push((f.replace("{}", b), "targeted:blank-where-forbidden"));
         }
     }
     let strings = ["'a", "a'", "\"a", "'a\"", "\"a'", "'\\x'", "'\\'", "'\\u12'", "'\\u123'", "'\\uD800'", "'\\uDC00'", "'\\uDC00\\uD800'", "'\\uD800\\u0041'", "'\\uD800x'", "'\\U0041'",
@@ -260,8 +260,7 @@ fn targeted(obs: &mut Obs, _thorough: bool) -> Res {
     let string_frames = ["$[{}]", "$[?@.a=={}]", "$[?@[{}]==1]", "$[?match(@.a,{})]", "$..[{}]", "$[0,{}]", "$[?length({})==1]"];
     for f in string_frames {
         for s in strings {
-            must_reject(&f.replace("{}", s), "targeted:string-form", true, obs)?;
-            n += 1;
+            out.push((f.replace("{}", s), "targeted:string-form"));
         }
     }
     let filters = [
@@ -279,8 +278,7 @@ fn targeted(obs: &mut Obs, _thorough: bool) -> Res {
     // frame is exercised from both sides and mistakes in the list cannot raise an alarm)
     for f in filters {
         for frame in ["$[?{}]", "$[?({})]", "$.a[?{}].b", "$[?@.x && {}]", "$[?@[?{}]]"] {
-            must_reject(&frame.replace("{}", f), "targeted:filter-form", true, obs)?;
-            n += 1;
+            out.push((frame.replace("{}", f), "targeted:filter-form"));
         }
     }
     let queries = [
@@ -291,9 +289,17 @@ fn targeted(obs: &mut Obs, _thorough: bool) -> Res {
         "$.a\u{0}b", "\u{feff}$", "$.a\u{200b} ", "$.a #c", "$.a // c", "$.a /* c */", "$.a;", "$.a\\", "$\\.a", "$.\\a",
     ];
     for q in queries {
-        must_reject(q, "targeted:query-form", true, obs)?;
-        n += 1;
+        out.push((q.to_string(), "targeted:query-form"));
     }
+    out
+}
+
+fn targeted(obs: &mut Obs, _thorough: bool) -> Res {
+    let inputs = targeted_inputs();
+    for (s, family) in &inputs {
+        must_reject(s, family, true, obs)?;
+    }
+    let n = inputs.len();
     obs.boxes.push(json!({"box": "targeted near misses: integer forms x integer positions, a blank at each place the grammar forbids one x 4 blanks, string forms x string positions, filter forms x filter frames, query forms", "strings": n, "exhaustive": true}));
     Ok(())
 }
